@@ -15,6 +15,7 @@ RULE = ("G_live witness graphs (+ the repository's own test topology) under both
         "episode whose forced gate was reached or that ended with an immediate stop/next reset; distinct by spec digest x episode "
         "x ending")
 RULE += " Built later (thorough): 48 cases with seeded pauses at statement starts inside rex/asynchronous.py in every thread (sys.monitoring LINE events)."
+RULE += " Built later: statement-level gate (sys.monitoring LINE events, located by source text): the supervisor worker is held before it pops its answered action future while stop() runs up to the statement that indexes that queue."
 RULE += " Built later: tie family (zero delays, commensurate rates, buffered/skipped connections)."
 RULE += " Built later: G_wide family (overruns and blocking+skip allowed, no blocking fast->slow edge; supported since repairs 4f3d528/f3bcd76)."
 RULE += " Built later: blocking-cycle family (slow->fast blocking edge, blocking skipped back-edge, rate multiple <= 4, one starved connection worker)."
@@ -110,6 +111,22 @@ def run_case(case):
     if case.get("kind") == "blk":  # longer episodes: the backlog of unprocessed queue entries needs a few periods to build up
         H = [dict(style=rnd.choice(["run", "step"]), n=rnd.randint(10, 16), end=rnd.choice(["stop", "stop_now", "stop2"]), mid_reset=False, pre_stop=False,
                   carry=(e > 0 and rnd.random() < 0.3)) for e in range(3)]
+    lg = None
+    if case.get("kind") == "stoprace":
+        # stop() directly after run(): the supervisor worker is held between receiving its action and popping the action future,
+        # the user thread runs stop() up to the statement that cancels the newest action future and is held there until the
+        # future has been popped (the queue it is about to index is then empty)
+        H = [dict(style="run", n=rnd.randint(2, 6), end="stoprace", mid_reset=False, pre_stop=False, carry=False) for e in range(rnd.randint(2, 4))]
+        def newest():
+            q = g._synchronizer.action
+            try:
+                return q[-1]
+            except IndexError:
+                return None
+
+        # released once the future that was newest when the user arrived has been popped (the queue is empty, or holds a newer one)
+        lg = D.LineGate("_async_step", "self._q_act.popleft()", "stop", "self._synchronizer.action[-1]", snapshot=newest,
+                        until=lambda snap: newest() is not snap or snap is None).__enter__()
     state = dict(op=None, ep=-1, done=False, err=None, calls=0, results=[], gates=0, gate_misses=0)
 
     def call(name, fn, *a):
@@ -134,6 +151,8 @@ def run_case(case):
                     call("stop(before any episode)", g.stop)
                 if h["style"] == "run":
                     for i in range(h["n"]):
+                        if lg is not None and i == h["n"] - 1:
+                            lg.arm()
                         gs = call("run", g.run, gs)
                         if i == 0:
                             info["first_run_seq"] = int(onp.array(gs.step_state[sup.name].seq))
@@ -219,6 +238,11 @@ def run_case(case):
             hits = 0
 
     items, counters, samples = [], Counter(), []
+    if lg is not None:
+        counters["line_gate_supervisor_held"], counters["line_gate_user_held"] = lg.held_a, lg.held_b
+        state["gates"] += lg.held_b
+        if deadlock is None and not th.is_alive():
+            lg.__exit__()
     if ly is not None:
         counters["line_events"], counters["line_yields"] = ly.lines, ly.yields
         if deadlock is None and not th.is_alive():
@@ -246,7 +270,7 @@ def run_case(case):
     prev_eps = None
     for info in state["results"]:
         e, h = info["ep"], info["h"]
-        nontriv = bool(info.get("gate_reached")) or h["end"] in ("stop_now", "next_reset", "stop2")
+        nontriv = bool(info.get("gate_reached")) or h["end"] in ("stop_now", "next_reset", "stop2", "stoprace")
         key = f"{dg}/{e}/{h['style']}/{h['end']}"
         V = []
         if info.get("gate_timed_out"):
@@ -308,6 +332,7 @@ def plan(tier, seed):
     cases += [dict(name=f"iso-{i}", kind="iso", spec_seed=seed * 100057 + 7000 + i, clock="sim", timeout=300) for i in range(12 if tier == "quick" else 150)]
     cases += [dict(name=f"cyc-{i}", kind="cyc", spec_seed=seed * 100057 + 11000 + i, clock="sim", timeout=300) for i in range(10 if tier == "quick" else 120)]
     cases += [dict(name=f"wide-{i}", kind="wide", spec_seed=seed * 100057 + 15000 + i, clock="sim", timeout=300) for i in range(12 if tier == "quick" else 200)]
+    cases += [dict(name=f"stoprace-{i}", kind="stoprace", spec_seed=seed * 100057 + 23000 + i, clock="sim", timeout=300) for i in range(8 if tier == "quick" else 80)]
     cases += [dict(name=f"tie-{i}", kind="tie", spec_seed=seed * 100057 + 19000 + i, clock="sim", timeout=300) for i in range(8 if tier == "quick" else 100)]
     cases += [dict(name=f"fan-{i}", kind="fan", spec_seed=seed * 100057 + 17000 + i, clock="sim", timeout=300) for i in range(6 if tier == "quick" else 60)]
     cases += [dict(name=f"blk-{i}", kind="blk", spec_seed=seed * 100057 + 13000 + i, clock="sim", timeout=300) for i in range(16 if tier == "quick" else 160)]
